@@ -369,7 +369,8 @@ class CallMixin:  # pylint:disable=too-many-public-methods
             return tuple(self.iterate(args[0], node, frame)) if args else ()
         if name == "builtins.set":
             return set(self.hashable(x, node, frame) for x in self.iterate(args[0], node, frame)) if args else set()
-        if name == "builtins.dict":
+        if name in ("builtins.dict", "weakref.WeakKeyDictionary", "weakref.WeakValueDictionary", "collections.OrderedDict"):
+            # the weak / ordered mappings are modelled as a plain dict: an entry that may have vanished only removes behaviours
             out: Dict[Any, Any] = {}
             if args:
                 src = args[0]
